@@ -124,6 +124,11 @@ PROPS["C04"] = {
 
 def _c13_property(r):
     """"Original documents that carry an id (or, for DID documents, a context) are refused" - on the implementation's own answer"""
+    if r["kind"] == "validate" and isinstance(r["impl"], dict) and r["impl"].get("validate") == "ok":
+        lab = r["case"].get("label", "")
+        # every entry of a list is a key / a service / a valid id / a URI / a known purpose: an entry of another JSON type is none of these
+        if lab.endswith(("entry-not-object", "entry-not-string", "purpose-not-string", "member-not-list")):
+            return "validate/" + lab.split("/", 1)[-1] + "/accepted"
     if r["kind"] != "origdoc":
         return None
     lab, imp = r["case"].get("label", ""), r["impl"]
